@@ -326,12 +326,13 @@ def c01(run, args):
     # (1) transition tour: every (contract state, command) edge once, each completed by a delivery that exposes hidden state
     tour = run.generate("GenSmtp", gen_cfg(core + ["noop", "unknown", "empty", "authplain", "authlogin", "dataarg"], 60, "tour",
                                            mailkinds=("ok", "origin"), rcptkinds=("a1", "a2", "c", "rej") if quick else kinds["rcptkinds"],
-                                           bodykinds=("ok", "unparseable"), maxrcpts=(2,) if quick else (1, 3),
+                                           bodykinds=("ok", "unparseable"), maxrcpts=(2,),
                                            bound="Bound1" if quick else "Bound"), workers=4)
     # (2) every command sequence inside an open transaction, to a bounded depth
     bfs = run.generate("GenSmtp", gen_cfg(["helo", "mail", "rcpt", "data", "rset"], 7 if quick else 8, "bfs", mailkinds=("ok",),
                                           rcptkinds=("a1", "a2", "b", "rej") if quick else ("a1", "a2", "c", "rej"), bodykinds=("ok", "unparseable"), maxrcpts=(3,), start_in_tx=True), workers=8)
     bfs = [x for x in bfs if any(a["c"] == "body" for a in x)]
+    ntour = len(tour)
     bfs = tour + bfs
     # (3) long simulated multi-transaction dialogues
     sim = run.generate("GenSmtp", gen_cfg(core + ["noop", "authplain"], 40 if quick else 60, "sim", bodykinds=("ok", "nohdr", "unparseable"), **{k: kinds[k] for k in ("mailkinds", "rcptkinds")}),
@@ -346,7 +347,9 @@ def c01(run, args):
         combos = [(n, p) for n in namings for p in range(len(POLICIES))]
         if quick:
             combos = [combos[(i + run.seed) % len(combos)]]
-        return [(lambda rng, n=n, p=p: Concretiser(rng, naming=n, policy=POLICIES[p])) for (n, p) in combos]
+        # the recipient limit of the configuration is the one the sequences were generated for (tour: 2, others: 3)
+        mr = 2 if i < ntour else 3
+        return [(lambda rng, n=n, p=p: Concretiser(rng, naming=n, policy=POLICIES[p], max_rcpt=mr)) for (n, p) in combos]
 
     stores = (lambda i: ["mem", "file"][(i + run.seed) % 2:][:1]) if quick else (lambda i: ["mem", "file"])
     beh = behaviours_from(run, bfs, configs, stores, "bfs")
@@ -424,7 +427,7 @@ def c03(run, args):
                                        bodykinds=("ok", "nohdr", "unparseable", "big"), maxrcpts=(0, 1, 2, 3)), label="GenSmtp(contract model)")
     # (1) every edge of the state graph over the full alphabet (malformed lines, AUTH sub-dialogues, ...)
     tour = run.generate("GenSmtp", gen_cfg(ALL_CMDS, 80, "tour", mailkinds=allmail, rcptkinds=("a1", "rej", "bad") if quick else ("a1", "a2", "c", "rej", "bad"),
-                                           bodykinds=("ok", "nohdr", "unparseable"), maxrcpts=(1,) if quick else (1, 2), bound="Bound1" if quick else "Bound"), workers=4)
+                                           bodykinds=("ok", "nohdr", "unparseable"), maxrcpts=(1,) if quick else (2,), bound="Bound1" if quick else "Bound"), workers=4)
     # (2) long random dialogues over the full alphabet
     sim = run.generate("GenSmtp", gen_cfg(ALL_CMDS, 50 if quick else 80, "sim", mailkinds=allmail, rcptkinds=("a1", "a2", "b", "c", "rej", "bad"),
                                           bodykinds=("ok", "nohdr", "unparseable")), simulate={"num": 300, "depth": 51 if quick else 81})
@@ -438,7 +441,8 @@ def c03(run, args):
     run.cov["exhaustive"] = True
     mk = lambda rng: Concretiser(rng, naming="local", policy=POLICIES[0], max_rcpt=3)
     stores = (lambda i: ["mem", "file"][(i + run.seed) % 2:][:1]) if quick else (lambda i: ["mem", "file"])
-    beh = behaviours_from(run, tour, lambda i: [mk], stores, "tour")
+    mkt = lambda rng: Concretiser(rng, naming="local", policy=POLICIES[0], max_rcpt=1 if quick else 2)
+    beh = behaviours_from(run, tour, lambda i: [mkt], stores, "tour")
     beh += behaviours_from(run, sim, lambda i: [mk], stores, "sim")
     vb = behaviours_from(run, valid, lambda i: [lambda rng: Concretiser(rng, naming="local", policy=POLICIES[0], max_rcpt=3, mixed_verbs=False)],
                          lambda i: ["mem", "file"], "valid")
@@ -770,7 +774,7 @@ def c17(run, args):
                                        bodykinds=("ok",), hookkinds=hooks_go, maxrcpts=(1, 2)), label="GenSmtp(hook answers)")
     # every edge of the contract's state graph with every hook answer on MAIL and RCPT
     tour = run.generate("GenSmtp", gen_cfg(["helo", "mail", "rcpt", "data", "rset"], 80, "tour", mailkinds=("ok", "origin"), rcptkinds=("a1", "c", "rej"),
-                                           bodykinds=("ok",), hookkinds=hooks_go, maxrcpts=(1,) if quick else (1, 2), bound="Bound1"), workers=4)
+                                           bodykinds=("ok",), hookkinds=hooks_go, maxrcpts=(1,) if quick else (2,), bound="Bound1"), workers=4)
     # delivery with every before-message-stored variant, after every recipient combination
     deliv = run.generate("GenSmtp", gen_cfg(["rcpt", "data"], 6 if quick else 7, "bfs", mailkinds=("ok",), rcptkinds=("a1", "b", "c"), bodykinds=tuple(STORE_HOOKS),
                                             maxrcpts=(3,), start_in_tx=True), workers=4)
@@ -786,7 +790,7 @@ def c17(run, args):
             label, with_script, gohooks = variant
             if not with_script and any(a.get("hook") in ("gofirst", "golast") for a in seq):
                 continue
-            conc = HookConcretiser(random.Random("%d/%d" % (run.seed, i)), policy=POLICIES[i % 2 * 2], max_rcpt=2, with_script=with_script)
+            conc = HookConcretiser(random.Random("%d/%d" % (run.seed, i)), policy=POLICIES[i % 2 * 2], max_rcpt=1 if quick else 2, with_script=with_script)
             beh.append({"id": "hk-%d-%s-%s" % (i, label, st), "store": st, "env": conc.env(), "cfg": conc.cfg(), "names": conc.mailboxes(), "gohooks": gohooks,
                         "lua": LUA_UNIVERSAL if with_script else LUA_NO_HANDLERS, "steps": [conc.step(a) for a in seq], "_abs": seq})
     for i, seq in enumerate(deliv):
